@@ -11,6 +11,7 @@ import (
 	"encoding/json"
 	"flag"
 	"fmt"
+	"io"
 	"os"
 	"os/exec"
 	"path/filepath"
@@ -128,7 +129,12 @@ func cmdWorker(args []string) int {
 	fs.Parse(args)
 	p := profile(*prop)
 	known := loadFindings(*prop)
-	out := bufio.NewWriter(os.Stdout)
+	var sink *os.File = os.Stdout
+	if os.Getenv("HAQQSIM_OUT_FD") == "3" {
+		// results go to a dedicated descriptor: the application's tracers print to stdout/stderr
+		sink = os.NewFile(3, "results")
+	}
+	out := bufio.NewWriter(sink)
 	defer out.Flush()
 	enc := json.NewEncoder(out)
 	for run := *from + *offset; run < *to; run += *stride {
@@ -227,9 +233,16 @@ func cmdSelftest(args []string) int {
 		var hashes []string
 		for _, procs := range []string{"1", "4", "16"} {
 			cmd := exec.Command(self, "worker", "-prop", *prop, "-tier", *tier, "-seed", fmt.Sprint(*seed), "-from", fmt.Sprint(i), "-to", fmt.Sprint(i+1), "-shrink", "0")
-			cmd.Env = append(os.Environ(), "GOMAXPROCS="+procs)
-			b, err := cmd.Output()
-			if err != nil {
+			cmd.Env = append(os.Environ(), "GOMAXPROCS="+procs, "HAQQSIM_OUT_FD=3")
+			rd, wr, _ := os.Pipe()
+			cmd.ExtraFiles = []*os.File{wr}
+			if err := cmd.Start(); err != nil {
+				fmt.Fprintln(os.Stderr, "selftest worker failed:", err)
+				return 2
+			}
+			wr.Close()
+			b, _ := io.ReadAll(rd)
+			if err := cmd.Wait(); err != nil {
 				fmt.Fprintln(os.Stderr, "selftest worker failed:", err)
 				return 2
 			}
@@ -307,7 +320,26 @@ func cmdRun(args []string) int {
 	// 1. known findings: replay each listed open finding first. A finding that
 	// reproduces is reported as KNOWN-FINDING; one that no longer reproduces is noted.
 	knownSeen := map[string]int{}
+	regressed := 0
 	for _, k := range known {
+		if k.Status == "fixed" && k.Replay != "" {
+			// regression guard: the schedule of a repaired defect must stay clean
+			path := filepath.Join(verifDir, k.Replay)
+			cmd := exec.Command(self, "replay", "-file", path, "-quiet")
+			cmd.Env = os.Environ()
+			outb, _ := cmd.CombinedOutput()
+			switch code := cmd.ProcessState.ExitCode(); code {
+			case 0:
+			case 1, 3, 4:
+				fmt.Printf("violation: the repaired defect %q is back (its recorded schedule fails again)\n  %s\n", k.Signature, lastLine(string(outb)))
+				fmt.Printf("VIOLATION property=%s replay=%s\n", *prop, path)
+				regressed++
+			default:
+				fmt.Printf("HARNESS-TROUBLE: replaying %s: exit %d: %s\n", k.Replay, code, lastLine(string(outb)))
+				return 2
+			}
+			continue
+		}
 		if k.Status != "open" || k.Replay == "" {
 			continue
 		}
@@ -339,14 +371,17 @@ func cmdRun(args []string) int {
 			cmd := exec.Command(self, "worker", "-prop", *prop, "-tier", *tier, "-seed", fmt.Sprint(*seed),
 				"-from", "0", "-to", fmt.Sprint(tc.Runs), "-stride", fmt.Sprint(*workers), "-offset", fmt.Sprint(i),
 				"-shrink", fmt.Sprint(tc.ShrinkS), "-deadline", fmt.Sprint(deadline))
-			cmd.Env = append(os.Environ(), "GOMAXPROCS=2")
-			cmd.Stderr = os.Stderr
-			so, err := cmd.StdoutPipe()
+			cmd.Env = append(os.Environ(), "GOMAXPROCS=2", "HAQQSIM_OUT_FD=3")
+			so, wr, err := os.Pipe()
 			if err != nil {
 				mu.Lock()
 				harness = append(harness, err.Error())
 				mu.Unlock()
 				return
+			}
+			cmd.ExtraFiles = []*os.File{wr}
+			if os.Getenv("HAQQSIM_DEBUG") != "" {
+				cmd.Stderr = os.Stderr
 			}
 			if err := cmd.Start(); err != nil {
 				mu.Lock()
@@ -354,6 +389,7 @@ func cmdRun(args []string) int {
 				mu.Unlock()
 				return
 			}
+			wr.Close()
 			sc := bufio.NewScanner(so)
 			sc.Buffer(make([]byte, 1<<24), 1<<24)
 			for sc.Scan() {
@@ -397,6 +433,9 @@ func cmdRun(args []string) int {
 
 	// 4. confirm each new violation by replaying its minimised file in a fresh process
 	exit := 0
+	if regressed > 0 {
+		exit = 1
+	}
 	confirmed := 0
 	reported := map[string]bool{}
 	for _, r := range newViol {
@@ -515,6 +554,23 @@ func aggregate(rs []workerOut) *aggT {
 		}
 	}
 	return a
+}
+
+func lastLine(s string) string {
+	ls := strings.Split(strings.TrimSpace(s), "\n")
+	for i := len(ls) - 1; i >= 0; i-- {
+		if strings.HasPrefix(ls[i], "REPLAY-RESULT") {
+			return ls[i]
+		}
+	}
+	if len(ls) == 0 {
+		return ""
+	}
+	l := ls[len(ls)-1]
+	if len(l) > 400 {
+		l = l[:400]
+	}
+	return l
 }
 
 func fmtMap(m map[string]int) string {
